@@ -215,6 +215,27 @@ def run(ctx):
                         traces.append(tr)
                         ctx.case(key=(fname, kind, json.dumps(tr["cfg"]["opts"], sort_keys=True), json.dumps(bck), seed, rg))
     rej = ctx.validate_traces("Trace_ParamSubst.tla", "Trace_ParamSubst.cfg", traces, shards=16)
+
+    def m_held(t):
+        for e in t["ev"]:
+            if e["a"] == "set" and not e["ident"] and e.get("held"):
+                e["held"][0] += 50                           # the object did not receive the requested tensor
+                return t
+
+    def m_restore(t):
+        st = [j for j, e in enumerate(t["ev"]) if e["a"] == "set" and not e["ident"]]
+        if st:
+            rs = [j for j, e in enumerate(t["ev"]) if j > st[0] and e["a"] == "restore"]
+            if rs:
+                del t["ev"][rs[0]]                           # a restore is missing
+                return t
+
+    def m_left(t):
+        if t["ev"][-1]["a"] == "final" and t["ev"][-1].get("seen"):
+            t["ev"][-1]["seen"][0][1] += 50                  # the object is left modified
+            return t
+    ctx.binding_selftest("Trace_ParamSubst.tla", "Trace_ParamSubst.cfg", traces, rej,
+                         [("requested tensor not installed", m_held), ("restore missing", m_restore), ("object left modified", m_left)])
     bytid = {t["tid"]: t for t in traces}
     for tid_, matched, total in rej:
         t = bytid[tid_]
